@@ -267,6 +267,10 @@ def helper_only_scripts():
     out.append(HDR + "sv = Servo(9)\nmot = DCMotor(2, 4, 5)\ndef park():\n    sv.write(0)\n    mot.stop()\n    return 0\nbtn = Button(3, on_click=park)\nwhile True:\n    sleep(5)\n")
     out.append(HDR + "items = [1, 2, 3]\ndef total(xs):\n    acc = 0\n    for i in range(len(xs)):\n        acc = acc + xs[i]\n    return acc\nt = total(items)\nmon.write(t)\n")
     out.append(HDR + "def ramp(top):\n    levels = [k * 2 for k in range(top)]\n    return levels\nlv = ramp(3)\nmon.write(lv[1])\n")
+    # helpers that call helpers: used in an expression / only ever as a statement / both, defined before their callers
+    out.append(HDR + "def report(x):\n    mon.write(x)\n\ndef scale(v):\n    report(v)\n    return v * 2\ny = scale(3)\nmon.write(y)\n")
+    out.append(HDR + "def low(x):\n    return x + 1\n\ndef note(x):\n    mon.write(low(x))\n\ndef top(v):\n    note(v)\n    note(v + 1)\n    return low(v) * 2\nnote(1)\nz = top(2)\nmon.write(z)\n")
+    out.append(HDR + "def beep_twice():\n    mon.write(\"b\")\n    mon.write(\"b\")\n\ndef cycle(n):\n    for k in range(n):\n        beep_twice()\n    return n\nwhile True:\n    c = cycle(2)\n    sleep(20)\n")
     out.append(HDR + "us = Ultrasonic(2, 3)\npot = Potentiometer(\"A0\")\ndef sense():\n    d = us.measure_distance()\n    return d + pot.read()\nwhile True:\n    r = sense()\n    mon.write(r)\n    sleep(60)\n")
     return out
 
